@@ -1,140 +1,152 @@
-(* Registration preserves the tree invariants, and adds exactly the route's own paths (its long form
-   and, for an optional last segment, its short form) to the root-to-leaf paths of the tree. *)
-Require Import Base Regex Route Tree TreeProofs TreeWf.
+(* Root-to-leaf paths of the tree with their key texts, and the paths a registration adds - the
+   key-carrying version of TreeAdd.add_segs_ok (two different segment texts may classify to the same
+   kind, so statements about "the same route text" need the keys). *)
+Require Import Base Regex Route Tree TreeProofs TreeWf TreeAdd.
 From Coq Require Import Sorted.
 
-Section AddProof.
+Definition kstep := (str * kind)%type.
+
+Fixpoint kpaths (t : tree) : list (list kstep * nat) :=
+  match t with
+  | Node subs leaves =>
+      map (fun l => ([(ltext l, lkind l)], lroute l)) leaves ++
+      (fix ps (l : list (str * kind * tree)) : list (list kstep * nat) :=
+         match l with
+         | [] => []
+         | (tx, k, st) :: l' => map (fun p => ((tx, k) :: fst p, snd p)) (kpaths st) ++ ps l'
+         end) subs
+  end.
+
+Definition ksub_paths :=
+  fix ps (l : list (str * kind * tree)) : list (list kstep * nat) :=
+    match l with
+    | [] => []
+    | (tx, k, st) :: l' => map (fun p => ((tx, k) :: fst p, snd p)) (kpaths st) ++ ps l'
+    end.
+
+Definition kleafpath (l : leaf) : list kstep * nat := ([(ltext l, lkind l)], lroute l).
+
+Lemma kpaths_node subs leaves : kpaths (Node subs leaves) = map kleafpath leaves ++ ksub_paths subs.
+Proof. reflexivity. Qed.
+
+Lemma ksub_paths_in (l : list (str * kind * tree)) p :
+  In p (ksub_paths l) <-> exists e q, In e l /\ In q (kpaths (stree e)) /\ p = ((skey e, skind e) :: fst q, snd q).
+Proof.
+  induction l as [|[[tx k] st] l IH]; cbn [ksub_paths].
+  - split; [intros [] | intros (e & q & [] & _)].
+  - fold (ksub_paths l). rewrite in_app_iff, IH, in_map_iff. split.
+    + intros [(q & <- & Hq)|(e & q & He & Hq & ->)].
+      * exists (tx, k, st), q. repeat split; [left; reflexivity | exact Hq].
+      * exists e, q. repeat split; [right; exact He | exact Hq].
+    + intros (e & q & [<-|He] & Hq & ->).
+      * left. exists q. split; [reflexivity | exact Hq].
+      * right. exists e, q. auto.
+Qed.
+
+Lemma kpaths_in subs leaves p :
+  In p (kpaths (Node subs leaves)) <->
+  (exists l, In l leaves /\ p = kleafpath l) \/
+  (exists e q, In e subs /\ In q (kpaths (stree e)) /\ p = ((skey e, skind e) :: fst q, snd q)).
+Proof.
+  rewrite kpaths_node, in_app_iff, in_map_iff, ksub_paths_in.
+  split; (intros [H|H]; [left | right; exact H]).
+  - destruct H as (l & <- & Hl). exists l. auto.
+  - destruct H as (l & Hl & ->). exists l. auto.
+Qed.
+
+(* forgetting the keys gives the paths of TreeProofs *)
+Definition forget (p : list kstep * nat) : list kind * nat := (map snd (fst p), snd p).
+
+Lemma paths_forget : forall t, paths t = map forget (kpaths t).
+Proof.
+  induction t as [subs leaves IH] using tree_ind2. rewrite paths_node, kpaths_node, map_app. f_equal.
+  - rewrite map_map. reflexivity.
+  - induction subs as [|[[tx k] st] subs IHs]; [reflexivity|]. inversion IH as [|? ? H1 H2]; subst.
+    cbn [sub_paths sub_paths_with ksub_paths]. fold (sub_paths subs). fold (ksub_paths subs).
+    rewrite map_app, (IHs H2). f_equal. cbn [snd] in H1. rewrite H1, !map_map. reflexivity.
+Qed.
+
+Section KAdd.
 Variable compile : str -> option re.
-(* the segments that occur: their canonical text determines them (true of parser output, C06) *)
 Variable good : list elem -> Prop.
 Hypothesis good_nil : good [].
 Hypothesis render_inj : forall a b, good a -> good b -> render_elems a = render_elems b -> a = b.
 
-Definition key_of (es : list elem) : str := render_segment (mkseg false es).
+Notation wfo := (wfo compile good).
+Notation leaf_origin := (leaf_origin compile good).
+Notation subs_wfo := (subs_wfo compile good).
+Local Notation wfo_node := (TreeAdd.wfo_node compile good).
+Local Notation wfo_empty := (TreeAdd.wfo_empty compile good).
+Local Notation key_of_inj := (TreeAdd.key_of_inj good render_inj).
+Local Notation classify_leaf_nil := (TreeAdd.classify_leaf_nil compile).
 
-Lemma seg_key_key_of s : seg_key s = key_of (elems s).
-Proof. reflexivity. Qed.
+Definition kwith_rid (rid : nat) (l : list (list kstep)) : list (list kstep * nat) := map (fun ks => (ks, rid)) l.
 
-Lemma render_segment_nonopt s : optional s = false -> render_segment s = key_of (elems s).
-Proof. unfold render_segment, key_of. intros ->. reflexivity. Qed.
-
-Lemma key_of_inj a b : good a -> good b -> key_of a = key_of b -> a = b.
-Proof.
-  intros Ga Gb H. apply render_inj; auto. unfold key_of, render_segment in H. cbn in H. inversion H. assumption.
-Qed.
-
-Definition sub_origin (anc : list str) (aa : bool) (e : str * kind * tree) : Prop :=
-  exists es, good es /\ skey e = key_of es /\ classify compile false anc aa es = Some (skind e).
-Definition leaf_origin (anc : list str) (l : leaf) : Prop :=
-  exists es, good es /\ ltext l = key_of es /\ classify compile true anc false es = Some (lkind l).
-
-Definition ctx_anc (anc : list str) (k : kind) : list str := kind_binds k ++ anc.
-Definition ctx_aa (aa : bool) (k : kind) : bool := aa || is_all k.
-
-Fixpoint wfo (anc : list str) (aa : bool) (t : tree) : Prop :=
-  match t with
-  | Node subs leaves =>
-      subs_ok subs /\ leaves_ok leaves /\ Forall (leaf_origin anc) leaves /\
-      (fix f (l : list (str * kind * tree)) : Prop :=
-         match l with
-         | [] => True
-         | e :: l' => (sub_origin anc aa e /\ wfo (ctx_anc anc (skind e)) (ctx_aa aa (skind e)) (snd e)) /\ f l'
-         end) subs
-  end.
-
-Definition subs_wfo anc aa (l : list (str * kind * tree)) : Prop :=
-  Forall (fun e => sub_origin anc aa e /\ wfo (ctx_anc anc (skind e)) (ctx_aa aa (skind e)) (stree e)) l.
-
-Lemma wfo_node anc aa subs leaves :
-  wfo anc aa (Node subs leaves) <-> subs_ok subs /\ leaves_ok leaves /\ Forall (leaf_origin anc) leaves /\ subs_wfo anc aa subs.
-Proof.
-  cbn [wfo]. unfold subs_wfo. split; intros (A & B & C & D); (split; [exact A|]; split; [exact B|]; split; [exact C|]); clear A B C.
-  - induction subs as [|e subs IH]; [constructor|]. destruct D as [D1 D2]. constructor; [exact D1 | apply IH; exact D2].
-  - induction subs as [|e subs IH]; [exact I|]. inversion D; subst. split; [assumption | apply IH; assumption].
-Qed.
-
-Lemma wfo_empty anc aa : wfo anc aa empty.
-Proof. apply wfo_node. repeat split; try constructor; intros pre a post E; destruct pre; discriminate. Qed.
-
-(* the invariant without the origin part is the plain well-formedness *)
-Lemma wfo_wf : forall t anc aa, wfo anc aa t -> wf t.
-Proof.
-  induction t as [subs leaves IH] using tree_ind2. intros anc aa H.
-  apply wfo_node in H as (A & B & _ & D). apply wf_node. split; [exact A|]. split; [exact B|].
-  unfold all_wf, subs_wfo in *. rewrite Forall_forall in *. intros e He. destruct (D e He) as [_ W]. eapply IH; eauto.
-Qed.
-
-(* the paths a registration adds, computed from the route alone (kinds in the context of its own
-   earlier segments) *)
-Fixpoint news (root : bool) (anc : list str) (aa : bool) (segs : list segment) : option (list (list kind)) :=
+(* the key-carrying paths a registration adds *)
+Fixpoint knews (root : bool) (anc : list str) (aa : bool) (segs : list segment) : option (list (list kstep)) :=
   match segs with
   | [] => None
   | [s] =>
       match classify compile true anc false (elems s) with
       | None => None
-      | Some k => Some (if optional s && root then [[KStatic []]; [k]] else [[k]])
+      | Some k => Some (if optional s && root then [[(seg_key (mkseg false []), KStatic [])]; [(seg_key s, k)]] else [[(seg_key s, k)]])
       end
   | s :: ((s2 :: rest2) as rest) =>
       match classify compile false anc aa (elems s) with
       | None => None
       | Some k =>
-          match news false (ctx_anc anc k) (ctx_aa aa k) rest with
+          match knews false (ctx_anc anc k) (ctx_aa aa k) rest with
           | None => None
           | Some l =>
               let short := match rest2 with
                            | [] => if optional s2
-                                   then match classify compile true anc false (elems s) with Some kl => Some [[kl]] | None => None end
+                                   then match classify compile true anc false (elems s) with Some kl => Some [[(seg_key s, kl)]] | None => None end
                                    else Some []
                            | _ => Some []
                            end in
-              match short with Some sh => Some (map (cons k) l ++ sh) | None => None end
+              match short with Some sh => Some (map (cons (seg_key s, k)) l ++ sh) | None => None end
           end
       end
   end.
 
-Lemma news_cons2 root anc aa s s2 rest2 :
-  news root anc aa (s :: s2 :: rest2) =
+Lemma knews_cons2 root anc aa s s2 rest2 :
+  knews root anc aa (s :: s2 :: rest2) =
   match classify compile false anc aa (elems s) with
   | None => None
   | Some k =>
-      match news false (ctx_anc anc k) (ctx_aa aa k) (s2 :: rest2) with
+      match knews false (ctx_anc anc k) (ctx_aa aa k) (s2 :: rest2) with
       | None => None
       | Some l =>
           let short := match rest2 with
                        | [] => if optional s2
-                               then match classify compile true anc false (elems s) with Some kl => Some [[kl]] | None => None end
+                               then match classify compile true anc false (elems s) with Some kl => Some [[(seg_key s, kl)]] | None => None end
                                else Some []
                        | _ => Some []
                        end in
-          match short with Some sh => Some (map (cons k) l ++ sh) | None => None end
+          match short with Some sh => Some (map (cons (seg_key s, k)) l ++ sh) | None => None end
       end
   end.
 Proof. reflexivity. Qed.
 
-Definition with_rid (rid : nat) (l : list (list kind)) : list (list kind * nat) := map (fun ks => (ks, rid)) l.
-
-Lemma add_leaf_paths anc ls s rid ls' : leaves_ok ls -> Forall (leaf_origin anc) ls -> good (elems s) ->
+Lemma add_leaf_kpaths anc ls s rid ls' : leaves_ok ls -> Forall (leaf_origin anc) ls -> good (elems s) ->
   add_leaf compile anc ls s rid = Some ls' ->
   leaves_ok ls' /\ Forall (leaf_origin anc) ls' /\
   exists k, classify compile true anc false (elems s) = Some k /\
-            forall p, In p (map leafpath ls') <-> p = ([k], rid) \/ In p (map leafpath ls).
+            forall p, In p (map kleafpath ls') <-> p = ([(seg_key s, k)], rid) \/ In p (map kleafpath ls).
 Proof.
   intros L O G H. destruct (add_leaf_ok compile anc ls s rid ls' L H) as (L' & k & C & -> & NI).
   split; [exact L'|]. split.
   - apply Forall_forall. intros l Hl. apply ins_in in Hl as [->|Hl]; [|rewrite Forall_forall in O; apply O; exact Hl].
     exists (elems s). repeat split; auto.
-  - exists k. split; [exact C|]. intros p. apply (ins_perm_map lrank leafpath).
+  - exists k. split; [exact C|]. intros p. apply (ins_perm_map lrank kleafpath).
 Qed.
 
-Lemma classify_leaf_nil anc : classify compile true anc false [] = Some (KStatic []).
-Proof. reflexivity. Qed.
-
-Theorem add_segs_ok : forall fuel root t anc aa segs rid t',
+Theorem add_segs_kok : forall fuel root t anc aa segs rid t',
   wfo anc aa t -> Forall (fun s => good (elems s)) segs ->
   add_segs compile fuel root t anc aa segs rid = Some t' ->
   wfo anc aa t' /\
-  exists l, news root anc aa segs = Some l /\
-            forall p, In p (paths t') <-> In p (paths t) \/ In p (with_rid rid l).
+  exists l, knews root anc aa segs = Some l /\
+            forall p, In p (kpaths t') <-> In p (kpaths t) \/ In p (kwith_rid rid l).
 Proof.
   induction fuel as [|fuel IH]; intros root t anc aa segs rid t' W G H; [discriminate|].
   destruct t as [sb ls]. apply wfo_node in W as (SO & LO & OL & OS).
@@ -143,47 +155,47 @@ Proof.
     inversion G as [|? ? Gs _]; subst.
     destruct (optional s && root) eqn:OR.
     + destruct (str_eqb (seg_key s) (seg_key (mkseg false []))) eqn:EK.
-      { (* "/?" alone: both forms are the leaf "/" *)
-        apply str_eqb_eq in EK. rewrite !seg_key_key_of in EK. cbn [elems] in EK.
+      { apply str_eqb_eq in EK. pose proof EK as EK0. rewrite !seg_key_key_of in EK. cbn [elems] in EK.
         assert (Es : elems s = []) by (apply key_of_inj; auto).
         destruct (add_leaf compile anc ls (mkseg false []) rid) as [ls1|] eqn:A1; [|discriminate]. inversion H; subst; clear H.
-        destruct (add_leaf_paths anc ls (mkseg false []) rid ls1 LO OL good_nil A1) as (L1 & O1 & k0 & C0 & P1).
+        destruct (add_leaf_kpaths anc ls (mkseg false []) rid ls1 LO OL good_nil A1) as (L1 & O1 & k0 & C0 & P1).
         cbn [elems] in C0. rewrite classify_leaf_nil in C0. inversion C0; subst k0.
         split; [apply wfo_node; auto|].
-        cbn [news]. rewrite Es, classify_leaf_nil, OR. eexists. split; [reflexivity|].
-        intros p. rewrite !paths_node, !in_app_iff, P1. cbn [with_rid map In]. intuition. }
+        cbn [knews]. rewrite Es, classify_leaf_nil, OR. eexists. split; [reflexivity|].
+        intros p. rewrite !kpaths_node, !in_app_iff, P1. rewrite EK0. cbn [kwith_rid map In]. intuition. }
       destruct (add_leaf compile anc ls (mkseg false []) rid) as [ls1|] eqn:A1; [|discriminate].
       destruct (add_leaf compile anc ls1 s rid) as [ls2|] eqn:A2; [|discriminate]. inversion H; subst; clear H.
-      destruct (add_leaf_paths anc ls (mkseg false []) rid ls1 LO OL good_nil A1) as (L1 & O1 & k0 & C0 & P1).
-      destruct (add_leaf_paths anc ls1 s rid ls2 L1 O1 Gs A2) as (L2 & O2 & k & C & P2).
+      destruct (add_leaf_kpaths anc ls (mkseg false []) rid ls1 LO OL good_nil A1) as (L1 & O1 & k0 & C0 & P1).
+      destruct (add_leaf_kpaths anc ls1 s rid ls2 L1 O1 Gs A2) as (L2 & O2 & k & C & P2).
       cbn [elems] in C0. rewrite classify_leaf_nil in C0. inversion C0; subst k0.
       split; [apply wfo_node; auto|].
-      cbn [news]. rewrite C, OR. eexists. split; [reflexivity|].
-      intros p. rewrite !paths_node, !in_app_iff, P2, P1. cbn [with_rid map In]. intuition.
+      cbn [knews]. rewrite C, OR. eexists. split; [reflexivity|].
+      intros p. rewrite !kpaths_node, !in_app_iff, P2, P1. cbn [kwith_rid map In]. intuition.
     + destruct (add_leaf compile anc ls s rid) as [ls'|] eqn:A; [|discriminate]. inversion H; subst; clear H.
-      destruct (add_leaf_paths anc ls s rid ls' LO OL Gs A) as (L' & O' & k & C & P).
+      destruct (add_leaf_kpaths anc ls s rid ls' LO OL Gs A) as (L' & O' & k & C & P).
       split; [apply wfo_node; auto|].
-      cbn [news]. rewrite C, OR. eexists. split; [reflexivity|].
-      intros p. rewrite !paths_node, !in_app_iff, P. cbn [with_rid map In]. intuition.
+      cbn [knews]. rewrite C, OR. eexists. split; [reflexivity|].
+      intros p. rewrite !kpaths_node, !in_app_iff, P. cbn [kwith_rid map In]. intuition.
   - (* an inner segment: a sub-tree *)
     inversion G as [|? ? Gs Grest]; subst.
     destruct (optional s) eqn:Os; [discriminate|].
     set (text := render_segment s) in *.
     assert (Etext : text = key_of (elems s)) by (apply render_segment_nonopt; exact Os).
+    assert (Eseg : seg_key s = text) by (rewrite Etext; reflexivity).
     set (last_opt := match rest2 with [] => optional s2 | _ => false end) in *.
     (* the short-form leaf, when the next segment is the optional last one *)
     assert (SHORT : forall ls', (if last_opt then add_leaf compile anc ls s rid else Some ls) = Some ls' ->
        leaves_ok ls' /\ Forall (leaf_origin anc) ls' /\
        exists sh, (match rest2 with
                    | [] => if optional s2
-                           then match classify compile true anc false (elems s) with Some kl => Some [[kl]] | None => None end
+                           then match classify compile true anc false (elems s) with Some kl => Some [[(seg_key s, kl)]] | None => None end
                            else Some []
                    | _ => Some []
                    end) = Some sh /\
-                  forall p, In p (map leafpath ls') <-> In p (map leafpath ls) \/ In p (with_rid rid sh)).
+                  forall p, In p (map kleafpath ls') <-> In p (map kleafpath ls) \/ In p (kwith_rid rid sh)).
     { intros ls' Hs. subst last_opt. destruct rest2 as [|s3 rest3].
       - destruct (optional s2).
-        + destruct (add_leaf_paths anc ls s rid ls' LO OL Gs Hs) as (L' & O' & kl & Cl & Pl).
+        + destruct (add_leaf_kpaths anc ls s rid ls' LO OL Gs Hs) as (L' & O' & kl & Cl & Pl).
           split; [exact L'|]. split; [exact O'|]. rewrite Cl. eexists. split; [reflexivity|].
           intros p. rewrite Pl. cbn. intuition.
         + inversion Hs; subst. split; [exact LO|]. split; [exact OL|]. eexists. split; [reflexivity|]. intros p. cbn. intuition.
@@ -211,19 +223,19 @@ Proof.
               rewrite Forall_forall in K1. apply (K1 _ Hin).
         -- unfold subs_wfo. apply Forall_forall. intros e He. apply UI in He as [->|[He _]]; [|apply OS; exact He].
            cbn [skind stree fst snd]. split; [exists (elems s); auto | exact Wst'].
-      * rewrite news_cons2, Ck. unfold ctx_anc, ctx_aa in *. rewrite Nl. cbv zeta. rewrite Esh. eexists. split; [reflexivity|].
-        intros p. rewrite !paths_in. unfold with_rid. rewrite map_app, in_app_iff, map_map.
+      * rewrite knews_cons2, Ck. unfold ctx_anc, ctx_aa in *. rewrite Nl. cbv zeta. rewrite Esh. eexists. split; [reflexivity|].
+        rewrite Eseg. intros p. rewrite !kpaths_in. unfold kwith_rid. rewrite map_app, in_app_iff, map_map. cbn [skey skind fst snd].
         split.
         -- intros [(lf & Hl & ->)|(e & q & He & Hq & ->)].
-           ++ assert (X : In (leafpath lf) (map leafpath ls')) by (apply in_map; exact Hl).
+           ++ assert (X : In (kleafpath lf) (map kleafpath ls')) by (apply in_map; exact Hl).
               apply Psh in X as [X|X]; [left; left; apply in_map_iff in X as (l0 & E0 & H0); exists l0; auto | right; right; exact X].
            ++ apply UI in He as [->|[He Ne]].
               ** cbn [stree skind fst snd] in *. apply Pst in Hq as [Hq|Hq].
                  --- left. right. exists (text, k, st), q. auto.
-                 --- right. left. unfold with_rid in Hq. apply in_map_iff in Hq as (ks & <- & Hks). apply in_map_iff. exists ks. auto.
+                 --- right. left. unfold kwith_rid in Hq. apply in_map_iff in Hq as (ks & <- & Hks). apply in_map_iff. exists ks. auto.
               ** left. right. exists e, q. auto.
         -- intros [[(lf & Hl & ->)|(e & q & He & Hq & ->)]|[X|X]].
-           ++ left. assert (Y : In (leafpath lf) (map leafpath ls')) by (apply Psh; left; apply in_map; exact Hl).
+           ++ left. assert (Y : In (kleafpath lf) (map kleafpath ls')) by (apply Psh; left; apply in_map; exact Hl).
               apply in_map_iff in Y as (l0 & E0 & H0). exists l0. auto.
            ++ right. destruct (str_eq_dec (skey e) text) as [Ek2|Nk2].
               ** (* the entry that was replaced: its old paths survive *)
@@ -238,8 +250,8 @@ Proof.
                  apply Pst. left. destruct q; exact Hq.
               ** exists e, q. split; [apply UI; right; auto | auto].
            ++ right. apply in_map_iff in X as (ks & <- & Hks). exists (text, k, st'), (ks, rid). cbn [stree skind fst snd].
-              split; [apply UI; left; reflexivity|]. split; [|reflexivity]. apply Pst. right. unfold with_rid. apply (in_map (fun ks0 : list kind => (ks0, rid))). exact Hks.
-           ++ left. assert (Y : In p (map leafpath ls')) by (apply Psh; right; exact X).
+              split; [apply UI; left; reflexivity|]. split; [|reflexivity]. apply Pst. right. unfold kwith_rid. apply (in_map (fun ks0 : list kstep => (ks0, rid))). exact Hks.
+           ++ left. assert (Y : In p (map kleafpath ls')) by (apply Psh; right; exact X).
               apply in_map_iff in Y as (l0 & E0 & H0). exists l0. auto.
     + (* a new sub-tree *)
       destruct (classify compile false anc aa (elems s)) as [k|] eqn:Ck; [|discriminate].
@@ -265,23 +277,23 @@ Proof.
         -- unfold subs_wfo. apply Forall_forall. intros e He. apply ins_in in He as [->|He].
            ++ cbn [skind stree fst snd]. split; [exists (elems s); auto | exact Wst'].
            ++ unfold subs_wfo in OS. rewrite Forall_forall in OS. apply OS. exact He.
-      * rewrite news_cons2, Ck. unfold ctx_anc, ctx_aa in *. rewrite Nl. cbv zeta. rewrite Esh. eexists. split; [reflexivity|].
-        intros p. rewrite !paths_in. unfold with_rid. rewrite map_app, in_app_iff, map_map.
+      * rewrite knews_cons2, Ck. unfold ctx_anc, ctx_aa in *. rewrite Nl. cbv zeta. rewrite Esh. eexists. split; [reflexivity|].
+        rewrite Eseg. intros p. rewrite !kpaths_in. unfold kwith_rid. rewrite map_app, in_app_iff, map_map. cbn [skey skind fst snd].
         split.
         -- intros [(lf & Hl & ->)|(e & q & He & Hq & ->)].
-           ++ assert (X : In (leafpath lf) (map leafpath ls')) by (apply in_map; exact Hl).
+           ++ assert (X : In (kleafpath lf) (map kleafpath ls')) by (apply in_map; exact Hl).
               apply Psh in X as [X|X]; [left; left; apply in_map_iff in X as (l0 & E0 & H0); exists l0; auto | right; right; exact X].
            ++ apply ins_in in He as [->|He].
               ** cbn [stree skind fst snd] in *. apply Pst in Hq as [Hq|Hq]; [destruct Hq|].
-                 right. left. unfold with_rid in Hq. apply in_map_iff in Hq as (ks & <- & Hks). apply in_map_iff. exists ks. auto.
+                 right. left. unfold kwith_rid in Hq. apply in_map_iff in Hq as (ks & <- & Hks). apply in_map_iff. exists ks. auto.
               ** left. right. exists e, q. auto.
         -- intros [[(lf & Hl & ->)|(e & q & He & Hq & ->)]|[X|X]].
-           ++ left. assert (Y : In (leafpath lf) (map leafpath ls')) by (apply Psh; left; apply in_map; exact Hl).
+           ++ left. assert (Y : In (kleafpath lf) (map kleafpath ls')) by (apply Psh; left; apply in_map; exact Hl).
               apply in_map_iff in Y as (l0 & E0 & H0). exists l0. auto.
            ++ right. exists e, q. split; [apply ins_in; right; exact He | auto].
            ++ right. apply in_map_iff in X as (ks & <- & Hks). exists (text, k, st'), (ks, rid). cbn [stree skind fst snd].
-              split; [apply ins_in; left; reflexivity|]. split; [|reflexivity]. apply Pst. right. unfold with_rid. apply (in_map (fun ks0 : list kind => (ks0, rid))). exact Hks.
-           ++ left. assert (Y : In p (map leafpath ls')) by (apply Psh; right; exact X).
+              split; [apply ins_in; left; reflexivity|]. split; [|reflexivity]. apply Pst. right. unfold kwith_rid. apply (in_map (fun ks0 : list kstep => (ks0, rid))). exact Hks.
+           ++ left. assert (Y : In p (map kleafpath ls')) by (apply Psh; right; exact X).
               apply in_map_iff in Y as (l0 & E0 & H0). exists l0. auto.
 Qed.
-End AddProof.
+End KAdd.
